@@ -338,7 +338,10 @@ theorem stitchDown_equiv (n : Nat) (last : Option Str) : ProgEquiv Eq (stitchDow
       split
       · pe_leaf
       · exact ProgEquiv.bindEq (ih _) fun _ => .ret rfl
-    · exact ih _
+    · apply ProgEquiv.bindEq (unwrapOr_equiv (isFile_equiv _) _); intro c
+      split
+      · exact ProgEquiv.logError_then _ (ih _)
+      · exact ih _
 
 theorem stitchAll_equiv (b : Nat) : ProgEquiv Eq (stitchAll b) (stitchAll b) := by
   unfold stitchAll
